@@ -32,7 +32,6 @@ func c06Resolve(c *Ctx, root *ssa.Function) c06Fns {
 	var f c06Fns
 	seen := map[*ssa.Function]bool{root: true}
 	work := []*ssa.Function{root}
-	first := true
 	for len(work) > 0 {
 		fn := work[0]
 		work = work[1:]
@@ -45,17 +44,19 @@ func c06Resolve(c *Ctx, root *ssa.Function) c06Fns {
 			work = append(work, g)
 			ps := g.Params
 			switch {
-			case len(ps) == 2 && isNamed(ps[0].Type(), pkgCaldav, "CompFilter") && isNamedPtr(ps[1].Type(), pkgIcal, "Component"):
-				if first && fn == root {
+			// (filters may be taken by value or by pointer; the evaluators
+			// are met in the order Match reaches them: the root one first)
+			case len(ps) == 2 && isNamedOrPtr(ps[0].Type(), pkgCaldav, "CompFilter") && isNamedPtr(ps[1].Type(), pkgIcal, "Component"):
+				if f.match == nil {
 					f.match = g
 				} else if f.compFilter == nil && g != f.match {
 					f.compFilter = g
 				}
-			case len(ps) == 2 && isNamed(ps[0].Type(), pkgCaldav, "PropFilter") && isNamedPtr(ps[1].Type(), pkgIcal, "Component"):
+			case len(ps) == 2 && isNamedOrPtr(ps[0].Type(), pkgCaldav, "PropFilter") && isNamedPtr(ps[1].Type(), pkgIcal, "Component"):
 				f.propFilter = g
-			case len(ps) == 2 && isNamed(ps[0].Type(), pkgCaldav, "ParamFilter") && isNamedPtr(ps[1].Type(), pkgIcal, "Prop"):
+			case len(ps) == 2 && isNamedOrPtr(ps[0].Type(), pkgCaldav, "ParamFilter") && isNamedPtr(ps[1].Type(), pkgIcal, "Prop"):
 				f.paramFilter = g
-			case len(ps) == 2 && isNamed(ps[0].Type(), pkgCaldav, "TextMatch"):
+			case len(ps) == 2 && isNamedOrPtr(ps[0].Type(), pkgCaldav, "TextMatch"):
 				f.textMatch = g
 			case len(ps) == 3 && isTimeType(ps[0].Type()) && isTimeType(ps[1].Type()) && isNamedPtr(ps[2].Type(), pkgIcal, "Component"):
 				f.compRange = g
@@ -63,9 +64,6 @@ func c06Resolve(c *Ctx, root *ssa.Function) c06Fns {
 				f.propRange = g
 			}
 		})
-		if fn == root {
-			first = false
-		}
 	}
 	return f
 }
@@ -386,6 +384,11 @@ func structField0Key(v Val) string {
 	switch s := v.(type) {
 	case Struct:
 		return keyOf(s.F[0].Get())
+	case Ptr:
+		// a filter taken by pointer
+		if st, ok := s.C.Get().(Struct); ok && len(st.F) > 0 {
+			return keyOf(st.F[0].Get())
+		}
 	}
 	return keyOf(v)
 }
@@ -394,7 +397,7 @@ func c06Param(c *Ctx, f c06Fns) DTXSpec {
 	fn := f.paramFilter
 	return DTXSpec{
 		Name: "param-filter", Entry: fn,
-		Sym: SymSpec{NonNil: func(k string) bool { return k == "field" }},
+		Sym: SymSpec{NonNil: func(k string) bool { return k == "field" || k == "filter" }},
 		Setup: func(in *Interp) {
 			in.Models = append(in.Models, icalModelsFull, modelBool(f.textMatch, func(a []Val) string { return "text(" + keyOf(a[1]) + ")" }))
 			in.OpenExternal = openIcal
@@ -430,7 +433,7 @@ func c06Prop(c *Ctx, f c06Fns) DTXSpec {
 	fn := f.propFilter
 	return DTXSpec{
 		Name: "prop-filter", Entry: fn,
-		Sym: SymSpec{NonNil: func(k string) bool { return k == "comp" }, MaxLen: func(string, types.Type) int { return 2 }},
+		Sym: SymSpec{NonNil: func(k string) bool { return k == "comp" || k == "filter" }, MaxLen: func(string, types.Type) int { return 2 }},
 		Setup: func(in *Interp) {
 			in.Models = append(in.Models, icalModelsFull,
 				modelBool(f.textMatch, func(a []Val) string { return "text(" + keyOf(a[1]) + ")" }),
@@ -674,7 +677,16 @@ func c06Filter(c *Ctx, fn, matchFn *ssa.Function) DTXSpec {
 		Setup: func(in *Interp) {
 			in.Models = append(in.Models, func(in *Interp, site ssa.CallInstruction, name string, args []Val) (Val, bool) {
 				if name != fullFnName(matchFn) {
-					return nil, false
+					// ... or the per-object evaluator Match itself delegates
+					// to: (filter, *CalendarObject) -> (bool, error)
+					callee := site.Common().StaticCallee()
+					if callee == nil || !inLib(callee) || len(callee.Params) != 2 || !isNamedPtr(callee.Params[1].Type(), pkgCaldav, "CalendarObject") || !isNamedOrPtr(callee.Params[0].Type(), pkgCaldav, "CompFilter") {
+						return nil, false
+					}
+					res := callee.Signature.Results()
+					if res.Len() != 2 || !isErrorType(res.At(1).Type()) {
+						return nil, false
+					}
 				}
 				id := keyOf(args[1])
 				if p, ok := args[1].(Ptr); ok {
@@ -732,4 +744,8 @@ func c06Filter(c *Ctx, fn, matchFn *ssa.Function) DTXSpec {
 			return []string{"[" + strings.Join(out, " ") + "]"}, true
 		},
 	}
+}
+
+func isNamedOrPtr(t types.Type, pkg, name string) bool {
+	return isNamed(t, pkg, name) || isNamedPtr(t, pkg, name)
 }
